@@ -1405,7 +1405,7 @@ func abortVsServer(c RawCase, rec recorder) *vf.Verdict {
 		if mustFail && s.writeErr == nil {
 			return vf.Bad("C18/abort/server-write-no-error", "%s: the handler wrote all %d bytes without an error although the peer had refused the response", desc, s.wrote)
 		}
-		if connLevel && s.ctx.Err() == nil {
+		if connLevel && !sim.WaitCtx(s.ctx.Done(), 2*time.Second) { // the cancellation runs on its own goroutine (context.AfterFunc)
 			return vf.Bad("C18/abort/server-context-alive", "%s: the connection is gone but the request context is not cancelled", desc)
 		}
 	}
